@@ -2,5 +2,5 @@
 # tools/try_mutant.sh <patch.diff> <prop> [runs]: apply a patch to /repo, run the quick check of a property, revert.
 patch="$(readlink -f "$1")"; prop="$2"; runs="${3:-640}"
 git -C /repo apply "$patch" || { echo "patch does not apply"; exit 3; }
-VERIF_RUNS=$runs timeout 1500 /verif/check "$prop" quick 2>&1 | grep -v "^KNOWN" | tail -4 | cut -c1-600
+VERIF_SCRATCH_EVIDENCE=/tmp/supvsim-scratch-evidence VERIF_RUNS=$runs timeout 1500 /verif/check "$prop" quick 2>&1 | grep -v "^KNOWN" | tail -4 | cut -c1-600
 git -C /repo checkout -- .
